@@ -12,6 +12,7 @@ REPLAYS = os.path.join(ROOT, "replays")
 EVIDENCE = os.path.join(ROOT, "evidence")
 STD_AXIOMS = {"propext", "Classical.choice", "Quot.sound"}
 ENV = dict(os.environ, CARGO_NET_OFFLINE="true")
+REPO = os.environ.get("VERIF_REPO", "/repo")
 
 
 class Lock:
@@ -37,7 +38,7 @@ def sh(cmd, cwd=None, timeout=None, stdin=None):
 
 def build_harness():
     with Lock(".build.lock"):
-        lock_src = "/repo/Cargo.lock"
+        lock_src = os.path.join(REPO, "Cargo.lock")
         lock_dst = os.path.join(HARNESS, "Cargo.lock")
         if not os.path.exists(lock_dst):
             shutil.copy(lock_src, lock_dst)
@@ -141,8 +142,8 @@ def parse_log(text):
     return res
 
 
-def run_impl(path):
-    rc, out = sh([TRH, path], timeout=3600)
+def run_impl(path, annotate=None):
+    rc, out = sh([TRH, path] + (["--annotate", annotate] if annotate else []), timeout=3600)
     return rc, parse_log(out), out
 
 
@@ -156,12 +157,16 @@ def run_both(cases, tag):
     os.makedirs(WORK, exist_ok=True)
     path = os.path.join(WORK, "%s-%d.ops" % (tag, os.getpid()))
     write_cases(path, cases)
-    rci, impl, rawi = run_impl(path)
-    rcm, model, rawm = run_model(path)
-    try:
-        os.remove(path)
-    except OSError:
-        pass
+    ann = path + ".ann"
+    rci, impl, rawi = run_impl(path, ann)
+    # the model consumes the annotated file: same operations, `settle`/`dropall` expanded into the
+    # polls/drops the harness performed, observed nondeterministic choices appended as ` @k=v`
+    rcm, model, rawm = run_model(ann if os.path.exists(ann) else path)
+    for q in (path, ann):
+        try:
+            os.remove(q)
+        except OSError:
+            pass
     return impl, model, (rci, rcm, rawi[-2000:] if rci else "", rawm[-2000:] if rcm else "")
 
 
